@@ -726,8 +726,8 @@ def bounded(tier, seed):
               "re-submission of the in-flight flow} x a flow that was edited (has a backup) before submission; checked: arrival order = queue order, no request arrives before all earlier replays fired their "
               "response/error hook, every replayed flow ends with response or error, unreplayable flows never reach the network and stay untouched, stopped flows equal their pre-replay snapshot and are not replayed, "
               "no socket/task left. distinct = (behaviours, bad flow, action); non-trivial = >= 2 flows or an action")
-    b.bound = "queues <= 3 (quick: all of length <= 2 and a seeded sample of length 3)"
-    b.exhaustive = tier == "thorough"
+    b.bound = "queues <= 3: every combination with <= 2 flows and at most one of {unreplayable flow, action}; a seeded sample (quick 250, thorough 10000 of ~30000) of the rest"
+    b.exhaustive = False
     rnd = random.Random(seed)
     cases = []
     for n in (1, 2, 3):
@@ -740,9 +740,10 @@ def bounded(tier, seed):
                 for bad, p in bads:
                     cases.append((beh, bad, p, act, k, ()))
     full = [c for c in cases if len(c[0]) <= 2 and (c[1] is None or c[3] is None)]
-    rest = [c for c in cases if c not in set(full)]
+    fullset = set(full)
+    rest = [c for c in cases if c not in fullset]
     rnd.shuffle(rest)
-    chosen = full + (rest if tier == "thorough" else rest[:250])
+    chosen = full + rest[:10000 if tier == "thorough" else 250]
     # flows that were edited before being submitted (they carry a backup): stop must still restore the pre-replay state
     chosen += [(("ok", "ok"), None, 0, "stop", 0, (1,)), (("ok", "ok", "ok"), None, 0, "stop", 0, (1, 2)), (("ok", "ok"), None, 0, "stop", 0, ())]
     for beh, bad, p, act, k, edited in chosen:
